@@ -700,6 +700,19 @@ pub fn apply_fault(t: &mut SupplyTrace, plan: &Plan, f: F, r: &mut Rng, prefer_s
                     };
                     clone.doc.signers = vec![kb];
                     clone.doc.ops.clear();
+                    // now and then the two filings are one and the same co-signed document
+                    let cosigned = r.chance(1, 2);
+                    let ka = match &lv.files[a].body {
+                        Body::Layout(inner) => inner.doc.signers.first().copied(),
+                        _ => None,
+                    };
+                    if let (true, Some(ka)) = (cosigned, ka) {
+                        clone.doc.signers = vec![ka, kb];
+                        if let Body::Layout(inner) = &mut lv.files[a].body {
+                            inner.doc.signers = vec![ka, kb];
+                            clone.doc.pretty = inner.doc.pretty;
+                        }
+                    }
                     clone.subdir = format!("{}.{}", sname, keys::key(keyspecs[kb]).prefix());
                     // the clone's inspections are other processes than the original's
                     for i in clone.layout.inspect.iter_mut() {
